@@ -152,6 +152,7 @@ func (r *runner) deliverScripts(scripts [][]action, owners []string) error {
 		if err != nil {
 			return err
 		}
+		u.Spellings = r.u.Spellings
 		d, err := newDeliverChain(u, priv)
 		if err != nil {
 			return err
@@ -173,7 +174,11 @@ func (r *runner) deliverScripts(scripts [][]action, owners []string) error {
 				cb := u.cert(a.O, a.S, a.B)
 				msg = &ctypes.MsgCreateCertificate{Owner: u.addr[a.Mo].String(), Cert: cb.CertPEM, Pubkey: cb.PubPEM}
 			case "revoke":
-				msg = &ctypes.MsgRevokeCertificate{ID: ctypes.CertificateID{Owner: u.addr[a.O].String(), Serial: serialOf(a.S).String()}}
+				txt, err := serialText(a.S, a.Sp)
+				if err != nil {
+					return err
+				}
+				msg = &ctypes.MsgRevokeCertificate{ID: ctypes.CertificateID{Owner: u.addr[a.O].String(), Serial: txt}}
 			default:
 				return fmt.Errorf("unknown action kind %q", a.K)
 			}
@@ -186,7 +191,7 @@ func (r *runner) deliverScripts(scripts [][]action, owners []string) error {
 			if err != nil {
 				return err
 			}
-			st := step{Ev: a.K, Signer: a.Signer, Mo: a.Mo, O: a.O, S: a.S, B: a.B, Iss: u.issuerName(a), OK: res.OK, Stage: res.Stage,
+			st := step{Ev: a.K, Signer: a.Signer, Mo: a.Mo, O: a.O, S: a.S, B: a.B, Sp: a.Sp, Iss: u.issuerName(a), OK: res.OK, Stage: res.Stage,
 				Err: res.Err, Reg: ents, Sid: stateID(ents), HasQ: true, Q: d.queries(ctx, u, r.ps)}
 			if res.OK {
 				r.stats["accepted"]++
